@@ -904,6 +904,12 @@ def _normalize_cond(d):
     if inner and inner[0] == 'cmp':
       return ('cmp', CMP_NEG[inner[1]], inner[2], inner[3])
     return ('not', inner)
+  if d[0] == 'call' and d[1] and (d[1] == 'anyhow::__private::not' or d[1].endswith('as std::ops::Not>::not') or d[1] == 'std::ops::Not::not') and len(d[2]) == 1:
+    # `ensure!(cond, ..)` lowers to `if anyhow::__private::not(cond) { return Err(..) }`
+    inner = _normalize_cond(d[2][0])
+    if inner and inner[0] == 'cmp':
+      return ('cmp', CMP_NEG[inner[1]], inner[2], inner[3])
+    return ('not', inner)
   if d[0] == 'call' and d[1]:
     last = d[1].split('::')[-1]
     if last in CMP_CALLS and ('PartialOrd' in d[1] or 'PartialEq' in d[1] or 'cmp::' in d[1]) and len(d[2]) == 2:
